@@ -1941,10 +1941,13 @@ def roi_to_subset_state(roi, x_att=None, y_att=None, x_categories=None, y_catego
 
     elif x_categories is not None or y_categories is not None:
 
-        if isinstance(roi, RectangularROI):
+        if isinstance(roi, RectangularROI) and np.isclose(roi.theta % np.pi, 0.0, atol=1e-9):
 
-            # In this specific case, we can decompose the rectangular ROI into
-            # two RangeROIs that are combined with an 'and' logical operation.
+            # In this specific case (a rectangle that is not rotated, or rotated
+            # by a multiple of pi, which maps it onto itself), we can decompose
+            # the rectangular ROI into two RangeROIs that are combined with an
+            # 'and' logical operation. Rotated rectangles are not the product
+            # of two ranges and are treated as polygon-like selections below.
 
             range1 = XRangeROI(roi.xmin, roi.xmax)
             range2 = YRangeROI(roi.ymin, roi.ymax)
